@@ -19,13 +19,15 @@ type Options struct {
 	Backend      string
 	TimeoutMs    int
 	MaxPaths     int
-	MaxSteps     int // per path
-	LoopBound    int // default per-loop-header visit cap
-	SamplePaths  int // paths whose model is kept for native validation
+	MaxSteps     int    // per path
+	PkgDir       string // directory of the harness package in the repository (corpus files)
+	LoopBound    int    // default per-loop-header visit cap
+	SamplePaths  int    // paths whose model is kept for native validation
 	Deadline     time.Time
 	KnownLabels  map[string]bool // labels (harness/label) listed as open known findings
 	Debug        bool
 	TraceThreads bool
+	Sched        bool // schedule mode: simulated threads with blocking semantics (implies TraceThreads)
 }
 
 // Counterexample for one obligation label.
@@ -64,6 +66,7 @@ type Result struct {
 	AssumeEnded    int
 	Decisions      int
 	Forks          int
+	PinDecided     int // branch alternatives decided by evaluation under inputs fixed by equalities of the path condition
 	Steps          int64
 	Labels         map[string]*LabelStat
 	Incomplete     []string // reasons the exploration is not exhaustive within the harness bounds
@@ -120,34 +123,36 @@ type Interp struct {
 	maxAllocSlots int
 
 	// per path
-	pc         []*sym.Term
-	decisions  []decision
-	dpos       int
-	nInputs    int
-	inputs     []*sym.Term
-	steps      int
-	loopBound  int
-	allocBudg  int
-	obs        []obsRec
-	depth      int
-	panicking  []*frameState
-	pathNo     int
-	files      map[string]*memFile
-	clock      *sym.Term
-	nClock     int
-	errSeq     int
-	tracer     *tracer
-	curFn      []*ssa.Function
-	afterCex   bool
-	poolDirty  int
-	initObjs   int
-	labelsSeen map[string]bool
-	inInit      *ssa.Package
-	stepBudget  int
+	pc           []*sym.Term
+	decisions    []decision
+	dpos         int
+	nInputs      int
+	inputs       []*sym.Term
+	steps        int
+	loopBound    int
+	allocBudg    int
+	obs          []obsRec
+	depth        int
+	panicking    []*frameState
+	pathNo       int
+	files        map[string]*memFile
+	clock        *sym.Term
+	nClock       int
+	errSeq       int
+	tracer       *tracer
+	pins         map[int]uint64
+	sched        *scheduler
+	curFn        []*ssa.Function
+	afterCex     bool
+	poolDirty    int
+	initObjs     int
+	labelsSeen   map[string]bool
+	inInit       *ssa.Package
+	stepBudget   int
 	sizeSampling bool
-	log2Exp     map[int]Int
-	InitNotes   []string
-	pendingBind []Val
+	log2Exp      map[int]Int
+	InitNotes    []string
+	pendingBind  []Val
 }
 
 type obsRec struct {
@@ -180,6 +185,9 @@ func New(prog *ssa.Program, opt Options) (*Interp, error) {
 	}
 	if it.opt.MaxPaths == 0 {
 		it.opt.MaxPaths = 20000
+		if it.opt.Thorough {
+			it.opt.MaxPaths = 200000
+		}
 	}
 	s, err := sym.NewSolver(it.opt.Backend, it.ctx, it.opt.TimeoutMs)
 	if err != nil {
@@ -224,6 +232,55 @@ func (it *Interp) addPC(t *sym.Term) {
 		return
 	}
 	it.pc = append(it.pc, t)
+	it.derivePins(t)
+}
+
+// derivePins: an equality between an invertible expression of one input and a constant (added by a concretisation
+// or a taken branch) fixes that input on this path; conditions over fixed inputs are then decided by evaluation
+// instead of a solver call.
+func (it *Interp) derivePins(t *sym.Term) {
+	if t.Op != "=" || len(t.Args) != 2 {
+		return
+	}
+	a, b := t.Args[0], t.Args[1]
+	if a.IsConst {
+		a, b = b, a
+	}
+	if !b.IsConst || a.Sort.K != sym.KBV || a.Sort.W > 64 || a.Sort.W <= 0 {
+		return
+	}
+	it.pinBits(a, b.C)
+}
+
+func (it *Interp) pinBits(x *sym.Term, v uint64) {
+	w := x.Sort.W
+	if w <= 0 || w > 64 {
+		return
+	}
+	if w < 64 {
+		v &= (uint64(1) << uint(w)) - 1
+	}
+	if it.pins == nil {
+		it.pins = map[int]uint64{}
+	}
+	// the term itself is fixed (whatever it is built from); invertible operators pass the value on to their operand
+	it.pins[x.ID] = v
+	switch x.Op {
+	case "zext":
+		it.pinBits(x.Args[0], v)
+	case "concat":
+		lo := x.Args[1]
+		if lo.Sort.W > 0 && lo.Sort.W < 64 {
+			it.pinBits(lo, v)
+			it.pinBits(x.Args[0], v>>uint(lo.Sort.W))
+		}
+	case "bvadd":
+		if x.Args[0].IsConst {
+			it.pinBits(x.Args[1], v-x.Args[0].C)
+		} else if x.Args[1].IsConst {
+			it.pinBits(x.Args[0], v-x.Args[1].C)
+		}
+	}
 }
 
 // branch decides a symbolic condition on this path: returns which side is taken.
@@ -237,6 +294,25 @@ func (it *Interp) branch(cond *sym.Term) bool {
 
 // choose picks one of the alternatives; the others that are feasible are explored on later paths.
 func (it *Interp) choose(conds []*sym.Term, complementary bool) int {
+	if len(it.pins) > 0 {
+		// every alternative evaluates under the terms fixed by the path condition: the outcome is implied by the path
+		// condition (like a constant fold) — no decision is recorded and nothing is added to the path condition
+		first, all := -1, true
+		for i, c := range conds {
+			v, ok := it.ctx.Eval(c, it.pins, it.pins)
+			if !ok {
+				all = false
+				break
+			}
+			if v == 1 && first < 0 {
+				first = i
+			}
+		}
+		if all && first >= 0 {
+			it.res.PinDecided++
+			return first
+		}
+	}
 	if it.dpos < len(it.decisions) {
 		d := it.decisions[it.dpos]
 		it.dpos++
@@ -245,7 +321,7 @@ func (it *Interp) choose(conds []*sym.Term, complementary bool) int {
 		return alt
 	}
 	it.checkDeadline()
-	it.sol.SyncPC(it.pc)
+	synced := false
 	var feas []int
 	for i, c := range conds {
 		if c.IsFalse() {
@@ -254,6 +330,20 @@ func (it *Interp) choose(conds []*sym.Term, complementary bool) int {
 		if c.IsTrue() {
 			feas = append(feas, i)
 			continue
+		}
+		if len(it.pins) > 0 {
+			if v, ok := it.ctx.Eval(c, it.pins, it.pins); ok {
+				// every input the condition depends on is fixed on this path
+				if v == 1 {
+					feas = append(feas, i)
+				}
+				it.res.PinDecided++
+				continue
+			}
+		}
+		if !synced {
+			it.sol.SyncPC(it.pc)
+			synced = true
 		}
 		if complementary && len(conds) == 2 && i == 1 && len(feas) == 0 {
 			// the first side is infeasible and the path condition is feasible: the other side must be
@@ -285,6 +375,14 @@ func (it *Interp) concretize(v Int, max int, why string) uint64 {
 		return v.C
 	}
 	w := int(v.W)
+	if len(it.pins) > 0 {
+		// fixed by equalities of the path condition: the value is unique, no enumeration needed
+		// (values derived from the fixed terms stay valid for the rest of the path: the pin table doubles as memo)
+		if x, ok := it.ctx.Eval(v.T, it.pins, it.pins); ok {
+			it.res.PinDecided++
+			return x
+		}
+	}
 	if it.dpos < len(it.decisions) {
 		d := it.decisions[it.dpos]
 		it.dpos++
@@ -543,6 +641,7 @@ func (it *Interp) RunHarness(fn *ssa.Function) (res *Result) {
 
 func (it *Interp) runPath(fn *ssa.Function) (end *pathEnd) {
 	it.pc = it.pc[:0]
+	it.pins = nil
 	it.dpos = 0
 	it.nInputs = 0
 	it.inputs = it.inputs[:0]
@@ -566,6 +665,20 @@ func (it *Interp) runPath(fn *ssa.Function) (end *pathEnd) {
 		it.tracer = newTracer()
 		it.tracer.it = it
 	}
+	it.sched = nil
+	if it.opt.Sched {
+		it.sched = newScheduler()
+		it.curFn = make([]*ssa.Function, 0, 64)
+	}
+	defer func() {
+		if it.sched != nil {
+			r := recover()
+			it.schedKillAll()
+			if r != nil {
+				defer panic(r)
+			}
+		}
+	}()
 	defer func() {
 		it.rollback()
 		if r := recover(); r != nil {
@@ -597,11 +710,24 @@ func (it *Interp) runPath(fn *ssa.Function) (end *pathEnd) {
 		}
 		it.res.Steps += int64(it.steps)
 		if it.tracer != nil {
-			it.res.Events = append(it.res.Events, it.tracer.finish())
+			tt := it.tracer.finish()
+			if len(tt.Threads) > 1 && end == nil {
+				func() {
+					defer func() { recover() }()
+					it.sol.SyncPC(it.pc)
+					if it.sol.CheckWith(it.ctx.True()) == sym.Sat {
+						tt.Vector = it.modelVector()
+					}
+					it.sol.ReleaseModel()
+				}()
+			}
+			it.res.Events = append(it.res.Events, tt)
 		}
 	}()
 	it.callFunction(fn, nil)
-	if it.tracer != nil {
+	if it.sched != nil {
+		it.schedQuiesce("end of the harness") // goroutines still able to run
+	} else if it.tracer != nil {
 		it.runPending() // goroutines still waiting to run
 	}
 	it.res.CompletedPaths++
